@@ -69,7 +69,7 @@ let () =
       | [] -> Buffer.add_string buf "\n"
       | name :: args ->
         let namez = List.init (String.length name) (fun i -> z_of_string (string_of_int (Char.code name.[i]))) in
-        let out = entry namez (List.map z_of_string args) in
+        let out = fv_entry namez (List.map z_of_string args) in
         Buffer.add_string buf (String.concat " " (List.map string_of_z out));
         Buffer.add_char buf '\n';
         if Buffer.length buf > 60000 then (print_string (Buffer.contents buf); Buffer.clear buf)
